@@ -63,6 +63,9 @@ type OpFact struct {
 
 var fset = token.NewFileSet()
 
+// further tables, one generator per file of this package (registered from init)
+var extraTables []func(repo, out string)
+
 func line(p token.Pos) int { return fset.Position(p).Line }
 
 func isCtorName(n string) (string, bool) {
@@ -908,6 +911,9 @@ func main() {
 		writeIfChanged(filepath.Join(*out, "Catalogue.lean"), sb.String())
 		js, _ := json.MarshalIndent(facts, "", " ")
 		writeIfChanged(filepath.Join(*out, "catalogue.json"), string(js)+"\n")
+		for _, gen := range extraTables {
+			gen(*repo, *out)
+		}
 	} else {
 		js, _ := json.MarshalIndent(facts, "", " ")
 		fmt.Println(string(js))
